@@ -43,6 +43,13 @@ GRID = dict(
 )
 
 
+import numpy as _np
+NUMTYPES = {'int': int, 'np.int64': _np.int64, 'np.uint16': _np.uint16,
+            'np.uint32': _np.uint32, 'np.uint64': _np.uint64, 'float': float,
+            'np.float32': _np.float32, 'np.int16': _np.int16}
+NUMTYPE_NAMES = sorted(NUMTYPES)
+
+
 def grid_points():
     keys = list(GRID)
     for combo in itertools.product(*[GRID[k] for k in keys]):
@@ -64,7 +71,10 @@ def run_once(ld, lens, p, drop, via):
             super().__init__(init_example, **kw)
             buckets.append(self)
 
-    examples = [(i, l) for i, l in enumerate(lens)]
+    # the number type of the lengths and of max_total_size (sample counts read
+    # from arrays are numpy scalars, often unsigned)
+    nt = NUMTYPES[p.get('numtype', 'int')]
+    examples = [(i, nt(l)) for i, l in enumerate(lens)]
 
     def pull(x):
         log.append(('pull', x[0]))
@@ -75,7 +85,9 @@ def run_once(ld, lens, p, drop, via):
               sort_key=(None if p['sort'] is None else (lambda x: x[1])),
               reverse_sort=(p['sort'] == 'desc'),
               batch_size=p['bs'], len_key=lambda x: x[1],
-              max_padding_rate=p['rate'], max_total_size=p['mts'])
+              max_padding_rate=p['rate'],
+              max_total_size=(None if p['mts'] is None else
+                              NUMTYPES[p.get('numtype_limit', p.get('numtype', 'int'))](p['mts'])))
     if via == 'strkeys':
         # dict examples, len_key / sort_key given as dictionary keys
         dex = [{'i': i, 'len': l} for i, l in examples]
@@ -173,7 +185,8 @@ def judge_nodrop(lens, p, log, batches, case, res):
             b, complete = batches[bi]
             bi += 1
             delivered += len(b)
-            ls = [x[1] for x in b]
+            ls = [float(x[1]) if isinstance(x[1], (float, _np.floating)) else int(x[1])
+                  for x in b]
             if len(b) == 0:
                 res.violation('empty-batch', case, None, sig=sig)
                 return False
@@ -210,13 +223,18 @@ def judge_nodrop(lens, p, log, batches, case, res):
                        'pulled': pulled}, sig=sig)
         return False
     for b, _ in batches:
-        if any(lens[i] != l for i, l in b):
+        if any(lens[i] != l for i, l in b):     # (numpy scalars compare by value)
             res.violation('example-altered', case, {'batch': b}, sig=sig)
             return False
     return closed_by_limit
 
 
 def check(ld, lens, p, via, res):
+    if 'numtype' not in p:
+        h = (sum(lens) * 7 + len(lens) * 3 + p['bs'] + (p['mts'] or 0)) % 16
+        if h < len(NUMTYPE_NAMES):
+            p = dict(p, numtype=NUMTYPE_NAMES[h],
+                     numtype_limit=NUMTYPE_NAMES[(h * 5 + 1) % len(NUMTYPE_NAMES)])
     case = {'lens': list(lens), 'params': p, 'via': via}
     try:
         log, batches = run_once(ld, lens, p, False, via)
@@ -228,6 +246,7 @@ def check(ld, lens, p, via, res):
     nontrivial = bool(limit) or any(len(b) >= 2 for b, _ in batches)
     res.case((tuple(lens), tuple(p.items()), via), nontrivial)
     res.count('batches_checked', len(batches))
+    res.seen('length_number_types', p.get('numtype', 'int'))
     res.seen('consumption_paths', via)
     if any(f is None for _, f in batches):
         res.violation('batch-from-unknown-bucket', case,
